@@ -6,13 +6,14 @@ combinations; mixed-type + - < <= > >= must be refused; same-type arithmetic act
 as_quantity succeeds exactly on matching signatures; unit strings round-trip through all 8 print formats.
 """
 import itertools
+import math
 
 ID = "C16"
 LEVEL = "exploration"
 TECHNIQUE = "runtime monitor: exhaustive type-pair sweep with the SI signature calculus as oracle, bit-exact SI values"
 RULE = ("family 'pair': every ordered pair of the quantity classes (41x41) x {*,/} x 6 value pairs x base/non-base "
         "units; family 'single': per class number*q, q*number, q/number, number/q, q*SI, q/SI, SI*q, SI/q, same-type "
-        "+ - < <= > >= == abs neg, mixed-type refusals against every other class; family 'sig': all SI signatures "
+        "+ - < <= > >= == abs neg (incl. NaN/inf/-inf operands for the comparisons), mixed-type refusals against every other class; family 'sig': all SI signatures "
         "with <= 3 non-zero exponents in -3..3 (19495) x 8 print formats x parse, plus as_quantity against all "
         "classes; family 'rnd': random full signatures/values; non-trivial = the case made at least one "
         "cross-type product or quotient whose result is a named quantity or has a non-zero signature; distinct = "
@@ -200,6 +201,16 @@ def run_case(case, ctx):
                     ctx.count("same_type_ops")
                     if got is not want:
                         ctx.viol(f"same-type-{opn}", {**info, "got": got, "want": want})
+                # non-finite SI values are values too: every comparison is the comparison of the SI values (false with a NaN)
+                for sv in (math.nan, math.inf, -math.inf):
+                    n_ = A(sv, ua)
+                    for x, y in ((a, n_), (n_, a), (n_, n_)):
+                        for opn, got, want in (("lt", x < y, float(x) < float(y)), ("le", x <= y, float(x) <= float(y)),
+                                               ("gt", x > y, float(x) > float(y)), ("ge", x >= y, float(x) >= float(y)),
+                                               ("eq", x == y, float(x) == float(y)), ("ne", x != y, float(x) != float(y))):
+                            ctx.count("same_type_ops")
+                            if got is not want:
+                                ctx.viol(f"same-type-{opn}:non-finite", {**info, "x": fx(float(x)), "y": fx(float(y)), "got": got, "want": want})
                 # the SI form of the same quantity: addition/ordering across (quantity, SI) is refused too
                 _must_refuse(ctx, "q+SI", lambda: a + s, info)
                 _must_refuse(ctx, "q<SI", lambda: a < s, info)
